@@ -16,6 +16,9 @@ Encoded (real bytecode): ``classify_auth_failure``, ``_combine_reasons``, the ``
     401 whose ``VGI-Auth-Reason`` is in the closed set and equals the JSON ``reason``; ``Cache-Control: no-store``;
     ``VGI-Auth-Proxy-Required``/``proxy_hint`` present iff configured, identical across two different failures of
     the same service (also through the serializer's cache); HTML only when Accept contains text/html.
+(c') history: request A then request B on the same app (kind, detail and — independently per request — the
+    representation asked for are symbolic): B's 401 satisfies the specification on its own and is byte-identical to
+    what a fresh app answers to B (the serializer's per-app body caches must never leak one request into another).
 (d) client: ``_parse_unauthorized`` on an arbitrary body (JSON value stub / undecodable bytes) always returns an
     ``AuthenticationError`` with a closed-set reason; the server's own envelope round-trips reason/detail/hint.
 """
@@ -50,6 +53,7 @@ BOUNDS = (
     "authenticator outcomes: accept | AuthFailure(each of the 6 reasons) | bare ValueError | PermissionError | ProofError | "
     "AuthUnavailableError | exception with a bogus reason attribute | KeyError; chains of 1..3; Accept any str len<=%d; proxy "
     "configurations: 7 compositions of the real authenticators declaring 0, 1 or 2 headers; details from a table of 4 texts; "
+    "histories of two requests per app with independent Accept per request; "
     "client: JSON value of depth<=2 with symbolic strings len<=%d / small ints, or any undecodable body len<=%d"
     % (pick(10, 12), pick(3, 4), pick(2, 4))
 )
